@@ -243,6 +243,25 @@ pub fn generate(seed: u64, fault_free: bool) -> AliasOut {
                 match op_for(&mut g, &cur, &user_ops) {
                     Some((op, rhs)) => {
                         let rhs = if ill { g.string() } else { rhs };
+                        // sometimes the right-hand side itself mutates the left-hand variable: the
+                        // documented order is read LHS, evaluate RHS, null the slot, call, write back
+                        let rhs = if g.rng.chance(1, 8) {
+                            match (&v, g.rng.below(3)) {
+                                (V::List(xs), 0) if !xs.is_empty() && path.is_empty() => {
+                                    Ex::List(vec![Ex::Pop(Box::new(lv(&name)))])
+                                }
+                                (_, 1) if path.is_empty() => {
+                                    let nv = alias_expr(&mut g, 1);
+                                    Ex::Seq(
+                                        vec![Ex::Assign(false, Box::new(lv(&name)), Box::new(nv)), rhs],
+                                        false,
+                                    )
+                                }
+                                _ => rhs,
+                            }
+                        } else {
+                            rhs
+                        };
                         g.push(
                             "op-assign",
                             Ex::OpAssign(false, Box::new(Lv::Ident(name, path)), op, Box::new(rhs)),
@@ -258,16 +277,39 @@ pub fn generate(seed: u64, fault_free: bool) -> AliasOut {
                 match &v {
                     V::List(xs) => {
                         let ix = slice_ix(&mut g.rng, xs.len());
-                        if g.rng.chance(1, 2) {
+                        if ill && g.rng.chance(1, 2) {
+                            // without `every` (documented as unimplemented): must raise, not crash,
+                            // and must not change anything
+                            let rhs = alias_expr(&mut g, 1);
+                            if g.rng.chance(1, 2) {
+                                g.push(
+                                    "slice-assign-no-every",
+                                    Ex::Assign(false, Box::new(Lv::Ident(name, vec![ix])), Box::new(rhs)),
+                                    vec![],
+                                )
+                            } else {
+                                g.push(
+                                    "slice-op-assign-no-every",
+                                    Ex::OpAssign(false, Box::new(Lv::Ident(name, vec![ix])), "++".into(), Box::new(rhs)),
+                                    vec![],
+                                )
+                            }
+                        } else if g.rng.chance(1, 2) {
                             let rhs = alias_expr(&mut g, 1);
                             g.push(
                                 "every-assign",
                                 Ex::Assign(true, Box::new(Lv::Ident(name, vec![ix])), Box::new(rhs)),
                                 vec![],
                             )
-                        } else if xs.iter().all(|x| matches!(x, V::Int(_))) {
+                        } else if xs.iter().all(|x| matches!(x, V::Int(_))) || (!fault_free && g.rng.chance(1, 2)) {
+                            // heterogeneous slices make the operator fail half-way: the variable must
+                            // be left untouched (the update works on a copy)
                             let rhs = g.small_int();
-                            let op = g.rng.pick(&["+", "*", "max"]).to_string();
+                            let op = if !user_ops.is_empty() && g.rng.chance(1, 4) {
+                                g.rng.pick(&user_ops).clone()
+                            } else {
+                                g.rng.pick(&["+", "*", "max", "//"]).to_string()
+                            };
                             g.push(
                                 "every-op-assign",
                                 Ex::OpAssign(true, Box::new(Lv::Ident(name, vec![ix])), op, Box::new(rhs)),
@@ -506,15 +548,42 @@ pub fn generate(seed: u64, fault_free: bool) -> AliasOut {
                 if a == b {
                     continue;
                 }
-                g.push(
-                    "destructure",
-                    Ex::Assign(
-                        false,
-                        Box::new(Lv::Seq(vec![lv(&a), lv(&b)], false)),
-                        Box::new(Ex::CommaSeq(vec![var(&b), var(&a)])),
-                    ),
-                    vec![],
-                )
+                if g.rng.chance(1, 2) {
+                    g.push(
+                        "destructure",
+                        Ex::Assign(
+                            false,
+                            Box::new(Lv::Seq(vec![lv(&a), lv(&b)], false)),
+                            Box::new(Ex::CommaSeq(vec![var(&b), var(&a)])),
+                        ),
+                        vec![],
+                    )
+                } else {
+                    // unpack a list variable around a splat; short lists must raise
+                    // (not a dict: unpacking one follows hash order)
+                    let cands: Vec<(String, V)> = vars
+                        .iter()
+                        .filter(|(_, v)| !matches!(v, V::Dict(_)))
+                        .cloned()
+                        .collect();
+                    if cands.is_empty() {
+                        continue;
+                    }
+                    let src = g.rng.pick(&cands).clone();
+                    let mut targets = vec![lv(&a), lv(&b)];
+                    if g.rng.chance(1, 2) {
+                        let c = g.rng.pick(&vars).0.clone();
+                        targets.push(lv(&c));
+                    }
+                    let pos = g.rng.below(targets.len());
+                    let inner = targets[pos].clone();
+                    targets[pos] = Lv::Splat(Box::new(inner));
+                    g.push(
+                        "destructure-splat",
+                        Ex::Assign(false, Box::new(Lv::Seq(targets, false)), Box::new(var(&src.0))),
+                        vec![],
+                    )
+                }
             }
             12 => {
                 // loop that reads one variable and mutates another
